@@ -15,26 +15,26 @@ TRUSTED_BASE = [
     "Go compiler/runtime and standard library",
 ]
 
-def S(name, nq, nt):
-    return {"name": name, "n_quick": nq, "n_thorough": nt}
+def S(name, driver, nq, nt, race=False):
+    """one generator stream: name known to the driver binary harness/cmd/<driver>"""
+    return {"name": name, "driver": driver, "n_quick": nq, "n_thorough": nt, "race": race}
 
 NOT_APPLICABLE = {}
 
-PROPS = {
-    "C05": {
-        "properties_file": "Properties/C05.v",
-        "corr_files": ["Corr/C05.v"],
-        "streams": [S("C05", 400, 20000)],
-        "rule": "allocation histories (Allocate/Release/ReleaseAll) over 1-40 paths, max in {<=0,1,2,3,5,10,11,25}, "
-                "length up to 6x max; a case is non-trivial when it contains an eviction or an id reuse; "
-                "distinct = distinct (max, op list)",
-        "assumptions": ["container/heap PopMin returns the minimum (stdlib)", "handle ids stay below 2^64"],
-        "level_text": "Full proof on the model: C05_live, C05_one_per_path, C05_reissue_same, C05_bounded for every reachable state of "
-                      "the handle-table model, every path set and every maximum (induction over arbitrary Allocate/Release/ReleaseAll "
-                      "histories; no bound). The model is tied to filehandle.go by differential runs of the real FileHandleMap evaluated "
-                      "in Coq, which also evaluate the property's own statement on the implementation's tables.",
-        "level_note": "Trusted: Coq kernel; the hand-written model Model/Handles.v (min-heap as multiset with pop-min; map iteration order "
-                      "irrelevant); the Go driver and verif_hooks.go accessors; container/heap. Wire-level issue of handles "
-                      "(MNT/LOOKUP/CREATE/...) is exercised by the NFS session streams, not proved.",
-    },
-}
+
+import importlib.util, glob, os
+
+PROPS = {}
+
+
+def _load():
+    here = os.path.dirname(os.path.abspath(__file__))
+    for f in sorted(glob.glob(os.path.join(here, "propcfg", "C*.py"))):
+        pid = os.path.basename(f)[:-3]
+        spec = importlib.util.spec_from_file_location("propcfg_" + pid, f)
+        m = importlib.util.module_from_spec(spec)
+        spec.loader.exec_module(m)
+        PROPS[pid] = m.CFG
+
+
+_load()
